@@ -335,6 +335,10 @@ def parse_tlc(res):
         if m:
             res.violated = m.group(1)
             res.error_trace = lines[i:i + 400]
+        m = re.match(r"^Error: Temporal property (\S+) was violated", l)
+        if m:
+            res.violated = res.violated or f"Temporal property {m.group(1)}"
+            res.error_trace = lines[i:i + 400]
         if l.startswith("Error: Temporal properties were violated") or l.startswith("Error: Assumption"):
             res.violated = res.violated or l
             res.error_trace = lines[i:i + 400]
